@@ -4,7 +4,7 @@
    of 1-RTT keys, the five header-protection keys and the cipher; select_decryptor then hands a Handshake packet the key of its
    direction.  Nothing else of the session changes (output, packet-number spaces, connection IDs, the TLS state). *)
 From Coq Require Import ZArith List Bool Lia.
-Require Import PyLib PyLibP SuiteTypes Crypto KeySchedule QuicKeys Varint QuicFrames QuicPn QuicDissector QuicTls Packet QuicSession.
+Require Import PyLib PyLibP SuiteTypes Crypto KeySchedule QuicKeys Varint QuicFrames QuicPn QuicDissector QuicTls Packet QuicSession QuicEpochP.
 Import ListNotations.
 Open Scope Z_scope.
 
@@ -49,12 +49,31 @@ Theorem quic_keys_installed s cr suite h ci kl k chs shs capp sapp :
     hp_client_initial (qs_hp s') = hp_client_initial (qs_hp s) /\ hp_server_initial (qs_hp s') = hp_server_initial (qs_hp s) /\
     qs_initial s' = qs_initial s /\ qs_output s' = qs_output s /\ qs_pn s' = qs_pn s /\ qs_tls s' = qs_tls s /\
     qs_client_cids s' = qs_client_cids s /\ qs_server_cids s' = qs_server_cids s /\ qs_version s' = qs_version s /\
-    qs_epoch_client s' = qs_epoch_client s /\ qs_epoch_server s' = qs_epoch_server s.
+    qs_epoch_client s' = qs_epoch_client s /\ qs_epoch_server s' = qs_epoch_server s /\
+    qs_keylen s' = kl /\ qs_phase_client s' = qs_phase_client s /\ qs_phase_server s' = qs_phase_server s.
 Proof.
   intros Hc Hk H1 H2 H3 H4 K1 K2 K3 K4. unfold set_tls_decryptors.
   destruct (suite_cases _ _ _ _ Hc) as [[-> E]|[[-> E]|[[-> E]|[-> E]]]]; injection E as -> -> ->;
     cbn [len length from_be]; 
     match goal with |- context [if ?c then _ else _] => let b := eval vm_compute in c in idtac end;
     (eexists; split; [vm_compute (from_be _); cbn -[dev_quic_keys key_ok filter]; rewrite Hk, H1, H2, H3, H4, K1, K2, K3, K4; cbn [andb negb]; reflexivity|cbn; repeat split; reflexivity]).
+Qed.
+
+(* ... and with it the invariant the key-update theorems (C02_key_phase_client / _server) start from: generation 0 on both sides *)
+Theorem epoch_invariant_installed s cr suite h ci kl k chs shs capp sapp (G : nat -> app_gen) :
+  suite_choice suite = Some (h, ci, kl) ->
+  dev_quic_keys C kl (filter (fun x => bytes_eqb (s_random x) cr) keylog) h (qs_version s) = Ok k ->
+  q_chs k = Some chs -> q_shs k = Some shs -> q_capp k = Some capp -> q_sapp k = Some sapp ->
+  key_ok ci (t_key chs) = true -> key_ok ci (t_key shs) = true -> key_ok ci (t_key capp) = true -> key_ok ci (t_key sapp) = true ->
+  qs_epoch_client s = 0 -> qs_epoch_server s = 0 -> qs_phase_client s = 0 -> qs_phase_server s = 0 ->
+  G 0%nat = {| g_skey := t_key sapp; g_siv := t_iv sapp; g_ckey := t_key capp; g_civ := t_iv capp; g_ssec := t_sec sapp; g_csec := t_sec capp |} ->
+  QuicEpochP.Inv h kl G (fst (set_tls_decryptors C keylog s cr suite)) 0 0.
+Proof.
+  intros Hc Hk H1 H2 H3 H4 K1 K2 K3 K4 E1 E2 P1 P2 HG.
+  destruct (quic_keys_installed s cr suite h ci kl k chs shs capp sapp Hc Hk H1 H2 H3 H4 K1 K2 K3 K4)
+    as (s' & Hset & Q1 & Q2 & Q3 & Q4 & Q5 & Q6 & Q7 & Q8 & Q9 & Q10 & Q11 & Q12 & Q13 & Q14 & Q15 & Q16 & Q17 & Q18 & Q19 & Q20 & Q21 & Q22).
+  rewrite Hset. cbn [fst]. exists 1%nat. unfold gens_upto. cbn [seq map]. rewrite HG.
+  split; [exact Q4|]. split; [lia|]. split; [lia|]. split; [exact Q2|]. split; [exact Q20|].
+  split; [rewrite Q18; exact E1|]. split; [rewrite Q19; exact E2|]. split; [rewrite Q21; exact P1|rewrite Q22; exact P2].
 Qed.
 End Installed.
